@@ -14,6 +14,7 @@ CONSTANTS
   Urgent = TRUE
   DupWrite = FALSE
   WriterGuard = TRUE
+  Defensive = FALSE
 SPECIFICATION Spec
 INVARIANTS TypeOK AtMostOneReply ExactlyOneWhenFinished OneLeaderPerGeneration FollowersNeverDone
   TimedOutGenerationIsTombstone FailureIsPrivate InternalSkipsJoin RegroupBound Quiescent InTime
